@@ -5,7 +5,9 @@ C10 — writes need a fresh token issued to the same IP (token-server level).
 theorems that need it. Times are UnixNano instants.
 -/
 import DhtVerif.Model.Token
+import DhtVerif.Model.Server
 import DhtVerif.Lemmas.C10
+import DhtVerif.Lemmas.C10Handler
 namespace Dht
 
 def minute : Nat := 60 * 1000000000
@@ -138,5 +140,103 @@ example : (TokenServer.ofGen [1,2,4]).valid id ((TokenServer.ofGen [1,2,3]).crea
     [1,2,3,4] 1000000000000 = false := by decide
 example : to16 [0,0,0,0,0,0,0,0,0,0,0xff,0xff,1,2,3,4] = to16 [1,2,3,4] := by decide
 example : Function.Injective (id : List UInt8 → List UInt8) := fun _ _ h => h
+
+end Dht
+
+/-! ## Handler level (server model): the write handlers consult the token first -/
+
+namespace Dht
+
+/-- announce_peer and put with a token that is not valid for the source IP
+now produce no datagram, no store update, no callback, and change nothing but
+the sender's routing-table entry. -/
+theorem C10.invalid_token_silent_and_pure (c : SrvCfg) (mk : TokenFn) (s s' : Srv) (src : NAddr) (m : QMsg) (a : QArgs)
+    (env : Env) (outs : List Out) (effs : List Effect)
+    (hy : m.y = str "q") (hq : m.q = str "announce_peer" ∨ m.q = str "put") (ha : m.a = some a)
+    (hbad : validToken c mk s.ts.now src.ip a.token = false)
+    (h : processMsg c mk s src m env = some (s', outs, effs)) :
+    outs = [] ∧ effs = [] ∧ s'.peers = s.peers ∧ s'.txns = s.txns ∧ s'.closed = s.closed := by
+  by_cases hcl : s.closed = true
+  · rw [processMsg_closed hcl] at h
+    simp only [Option.some.injEq, Prod.mk.injEq] at h
+    obtain ⟨h1, h2, h3⟩ := h
+    subst h1 h2 h3
+    exact ⟨rfl, rfl, rfl, rfl, rfl⟩
+  · rw [processMsg_query (by simpa using hcl) hy] at h
+    obtain ⟨tbl', h | h⟩ := handleQuery_eq_some h
+    · obtain ⟨_, h1, h2, h3⟩ := h
+      subst h1 h2 h3
+      exact ⟨rfl, rfl, rfl, rfl, rfl⟩
+    · obtain ⟨_, h1, h2, h3⟩ := h
+      have key := dispatch_invalid_token c mk { s with ts := { s.ts with table := tbl' } } src m a env hq ha hbad
+      rw [key] at h1 h2 h3
+      subst h1 h2 h3
+      exact ⟨rfl, rfl, rfl, rfl, rfl⟩
+
+/-- With a valid token they take effect: the announce is stored / the callback
+fires, the put reaches the store, and a reply is sent. -/
+theorem C10.valid_token_takes_effect (c : SrvCfg) (mk : TokenFn) (s s' : Srv) (src : NAddr) (m : QMsg) (a : QArgs)
+    (env : Env) (outs : List Out) (effs : List Effect)
+    (hy : m.y = str "q") (ha : m.a = some a) (hpass : c.passive = false)
+    (hhook : c.hasHook = false ∨ env.hookPropagate = true) (hcl : s.closed = false)
+    (hok : validToken c mk s.ts.now src.ip a.token = true)
+    (h : processMsg c mk s src m env = some (s', outs, effs)) :
+    (m.q = str "announce_peer" → outs.length = 1 ∧
+      (c.hasPeerStore = true → ∃ e, Effect.addPeer e ∈ effs) ∧ (c.hasCallback = true → ∃ p ok, Effect.announceCb a.infoHash src.ip p ok ∈ effs)) ∧
+    (m.q = str "put" → a.seq.isSome = true → env.putErr = none → Effect.storePut ∈ effs ∧ outs.length = 1) := by
+  obtain ⟨tbl', _, ho, he⟩ := processMsg_active hy hpass hhook hcl h
+  constructor
+  · intro hq
+    have key := dispatch_announce_valid c mk { s with ts := { s.ts with table := tbl' } } src m a env hq ha hok
+    rw [key] at ho he
+    subst ho he
+    refine ⟨rfl, fun hps => ?_, fun hcb => ?_⟩
+    · exact ⟨⟨a.infoHash, src.ip, (announcePort src a).1⟩, by simp [announceEffs, hps]⟩
+    · exact ⟨(announcePort src a).1, (announcePort src a).2, by simp [announceEffs, hcb]⟩
+  · intro hq hseq hput
+    have key := dispatch_put_valid c mk { s with ts := { s.ts with table := tbl' } } src m a env hq ha hseq hput hok
+    rw [key] at ho he
+    subst ho he
+    exact ⟨by simp, rfl⟩
+
+/-- The handler-level validity test is the token server's: it accepts exactly
+the tokens `createToken` made for this IP in the current or one of the
+`tokMaxDelta` previous intervals. -/
+theorem C10.handler_uses_token_server (c : SrvCfg) (H : List UInt8 → List UInt8) (secret ip tok : List UInt8) (now : Nat) :
+    let mk : TokenFn := fun ip16 idx => H (ip16 ++ be64 idx ++ secret)
+    let ts : TokenServer := ⟨secret, c.tokInterval, c.tokMaxDelta⟩
+    validToken c mk now ip tok = ts.valid H tok (ip16Of ip) now ∧
+    createToken c mk now ip = ts.create H (ip16Of ip) now := by
+  exact ⟨rfl, rfl⟩
+
+/-- T1: both write handlers call `validToken` before anything else in their case. -/
+theorem C10.token_checked_first :
+    (Gen.evHandleQuery.filter (· == "s.validToken")).length = 2 := by
+  decide +kernel
+
+/-! Non-vacuity (handler level): token function `ip16 ++ be64 idx`, clock 0. -/
+
+/-- announce_peer with the token `createToken` issues: one reply, the peer is stored. -/
+example : (processMsg { tbl := { root := List.replicate 20 1 }, hasPeerStore := true } (fun ip i => ip ++ be64 i) {} ⟨[1,2,3,4], 5⟩
+    { y := str "q", q := str "announce_peer", t := [7],
+      a := some { id := List.replicate 20 2, infoHash := List.replicate 20 3, port := some 6881,
+                  token := createToken { tbl := { root := [] } } (fun ip i => ip ++ be64 i) 0 [1,2,3,4] } } {}).map
+    (fun r => (r.2.1.length, r.2.2, r.1.peers)) =
+    some (1, [.addPeer ⟨List.replicate 20 3, [1,2,3,4], 6881⟩], [⟨List.replicate 20 3, [1,2,3,4], 6881⟩]) := by
+  decide +kernel
+/-- The same with a token issued to another IP: silence, nothing stored. -/
+example : (processMsg { tbl := { root := List.replicate 20 1 }, hasPeerStore := true } (fun ip i => ip ++ be64 i) {} ⟨[1,2,3,4], 5⟩
+    { y := str "q", q := str "announce_peer", t := [7],
+      a := some { id := List.replicate 20 2, infoHash := List.replicate 20 3, port := some 6881,
+                  token := createToken { tbl := { root := [] } } (fun ip i => ip ++ be64 i) 0 [1,2,3,5] } } {}).map
+    (fun r => (r.2.1.length, r.2.2, r.1.peers)) = some (0, [], []) := by
+  decide +kernel
+/-- put with a valid token and `seq` reaches the store. -/
+example : (processMsg { tbl := { root := List.replicate 20 1 } } (fun ip i => ip ++ be64 i) {} ⟨[1,2,3,4], 5⟩
+    { y := str "q", q := str "put", t := [7],
+      a := some { id := List.replicate 20 2, seq := some 1,
+                  token := createToken { tbl := { root := [] } } (fun ip i => ip ++ be64 i) 0 [1,2,3,4] } } {}).map
+    (fun r => (r.2.1.length, r.2.2)) = some (1, [.storePut]) := by
+  decide +kernel
 
 end Dht
